@@ -332,3 +332,28 @@ Example C02_acting_observers_executable_example :
   PropGrowAct.act_run_ok fn true 8 (PropDefs.run fn true 8 ops1) ops2 /\
   map (PropDefs.values (PropDefs.run fn true 8 (ops1 ++ ops2))) [0; 1; 2; 3; 4] = [Some 5%Z; Some 5%Z; Some 10%Z; Some 5%Z; Some 15%Z].
 Proof. vm_compute. repeat split; reflexivity. Qed.
+
+(* ... and in ANY order (coq/PropGrowAct.v, second half): histories that create properties, attach observers - plain ones and observers of
+   valueChanged that write another property -, bind fresh properties with immediate evaluation to expressions over any existing properties
+   (also once writing observers exist: the growth lemmas of section 3 hold with `writing observers allowed` in place of `no observer acts`),
+   and assign inputs by every path *)
+Theorem C02_growing_network_with_acting_observers_consistent :
+  forall fn rtl fuel ops q x pr z,
+    PropGrowAct.grow_act_run_ok fn rtl fuel PropDefs.world0 ops ->
+    let w := PropDefs.run fn rtl fuel ops in
+    PropSim.imm_of w q = Some x -> Util.lookup (PropDefs.w_props w) q = Some pr ->
+    PropCheck.den_node fn (PropDefs.values w) (PropDefs.b_root x) = Some z -> PropDefs.pr_value pr = z.
+Proof. exact PropGrowAct.grow_act_reachable_consistent. Qed.
+Print Assumptions C02_growing_network_with_acting_observers_consistent.
+
+(* non-vacuity: the observers exist BEFORE the bindings that read their targets: 0 --observer--> 1, 2 = 0 + 1, 1 --observer--> 3, 4 = 3 + 2 *)
+Example C02_acting_observers_any_order_example :
+  let fn := fun (f : nat) (l : list Z) => Some (fold_right Z.add 0%Z l) in
+  let ops := [PropDefs.PNew 0 1%Z; PropDefs.PNew 1 1%Z; PropDefs.PObserve 0 PropDefs.KChanged 100 0 (Some (false, 1));
+              PropDefs.PBind 2 (PropDefs.EOp2 0 (PropDefs.EProp 0) (PropDefs.EProp 1)) PropDefs.MImmediate;
+              PropDefs.PNew 3 0%Z; PropDefs.PObserve 1 PropDefs.KChanged 101 1 (Some (false, 3)); PropDefs.PSet 0 2%Z PropDefs.WSet;
+              PropDefs.PBind 4 (PropDefs.EOp2 1 (PropDefs.EProp 3) (PropDefs.EProp 2)) PropDefs.MImmediate;
+              PropDefs.PSet 0 5%Z PropDefs.WSet] in
+  PropGrowAct.grow_act_run_ok fn true 8 PropDefs.world0 ops /\
+  map (PropDefs.values (PropDefs.run fn true 8 ops)) [0; 1; 2; 3; 4] = [Some 5%Z; Some 5%Z; Some 10%Z; Some 5%Z; Some 15%Z].
+Proof. vm_compute. repeat split; reflexivity. Qed.
